@@ -1010,11 +1010,14 @@ pub fn run(args: &Args) {
     }
     rep.assume("the responder answers from a 5-command memory-backed graph; requester states are those reachable through the public API (Idle is never entered by the shipped code)");
     rep.assume("the wire mirror (serde types with the same shape) is validated against every message the real requester/responder write and every mirror-built message is read back by the real decoder");
-    rep.require_nonzero("commands_accepted");
-    rep.require_nonzero("session_mismatch_answers");
-    rep.require_nonzero("missing_response_answers");
-    rep.require_nonzero("malformed_response_answers");
-    rep.require_nonzero("responder_replies");
+    // vacuity guards apply to clean runs only: a run that found violations is not vacuous
+    if rep.violations().is_empty() {
+        rep.require_nonzero("commands_accepted");
+        rep.require_nonzero("session_mismatch_answers");
+        rep.require_nonzero("missing_response_answers");
+        rep.require_nonzero("malformed_response_answers");
+        rep.require_nonzero("responder_replies");
+    }
     rep.finish()
 }
 
